@@ -344,6 +344,15 @@ func discoveryDatagram(rng *rand.Rand, lt *layoutTables, cls string, prev []byte
 		serial = []byte{0xff, 0xff, 0xff, 0xff}
 	}
 	m := l.message(rng, 0x17, serial, "valid", nil)
+	// a quarter of the datagrams carry noise in the bytes that belong to no field (2, 3 and whatever the layout leaves free):
+	// "each entry the protocol decoding of its reply" does not depend on them
+	if rng.Intn(4) == 0 {
+		for _, o := range l.slackOffsets() {
+			if rng.Intn(2) == 0 {
+				m[o] = byte(1 + rng.Intn(255))
+			}
+		}
+	}
 	if len(cls) > 6 && cls[:6] == "badlen" {
 		// "badlen<N>": a datagram of exactly N bytes
 		n := 0
